@@ -2061,6 +2061,13 @@ func (r Stack) Reveal() Stack {
 reveal is a private method called by [Stack.Reveal].
 */
 func (r *stack) reveal() (err error) {
+	// a read-only instance is left exactly as it
+	// is, also when it is reached as a nested
+	// member of the instance being revealed.
+	if r.positive(ronly) {
+		return
+	}
+
 	r.lock()
 	defer r.unlock()
 
